@@ -26,11 +26,18 @@ def specAllow (allow : List String) : List String :=
 
 def isEmptyStream {μ} (s : Stream μ) : Bool := s.msgs.isEmpty
 
-def emptyErr {μ} : Stream μ := { msgs := [], fin := .err }
+def emptyErr {μ} : Stream μ := .served { msgs := [], fin := .err }
 
 /-- the `n` streams the server actually served: the script, continued by "break at once" streams -/
 def openedFrom {μ} (rest : List (Stream μ)) (n : Nat) : List (Stream μ) :=
   rest.take n ++ List.replicate (n - rest.length) emptyErr
+
+/-- how many of the first `k` open attempts (script `rest`, continued by served "break at once"
+streams) reach the server handler -/
+def srv {μ} : List (Stream μ) → Nat → Nat
+  | _, 0 => 0
+  | [], k + 1 => srv ([] : List (Stream μ)) k + 1
+  | s :: r, k + 1 => (if s.reaches then 1 else 0) + srv r k
 
 /-- never more than `max + 1` consecutive re-opened streams without a message (`n` = run so far) -/
 def segOk {μ} (max : Nat) : Nat → List (Stream μ) → Bool
@@ -43,27 +50,30 @@ def cnt {μ} : Nat → List (Stream μ) → Nat
   | n, s :: r => if isEmptyStream s then cnt (n + 1) r else cnt 0 r
 
 /-- clauses of C36 violated by an observed run of a stream call.
-`seen` = request payloads that reached the server; `cancelBlocked` = the caller cancelled while `Recv`
+`opens` = streams the client opened or tried to open (the first one included; counted below the
+interceptor), `seen` = request payloads that reached the server; `cancelBlocked` = the caller cancelled while `Recv`
 was blocked; `seenAtCancel` = how many requests the server had seen when the caller cancelled -/
 def specStream {μ ρ} [DecidableEq μ] [DecidableEq ρ] (watch : Bool) (max : Nat) (cancelAfter : Option Nat)
-    (cancelBlocked : Bool) (script : List (Stream μ)) (req : ρ) (delivered : List μ) (seen : List ρ)
+    (cancelBlocked : Bool) (script : List (Stream μ)) (req : ρ) (delivered : List μ) (opens : Nat) (seen : List ρ)
     (seenAtCancel : Nat) : List String :=
   -- the caller cancels only once `n` messages arrived: a run that ended earlier was never cancelled
   let cancelAfter := cancelAfter.filter (fun n => n ≤ delivered.length)
   let cancelled := cancelAfter.isSome || cancelBlocked
-  let reopened := openedFrom script.tail (seen.length - 1)
-  let all := (openedFrom script seen.length).flatMap (·.msgs)
+  let reopened := openedFrom script.tail (opens - 1)
+  let all := (openedFrom script opens).flatMap (·.msgs)
   (if seen.all (· == req) then [] else ["request-not-resent"]) ++
   (if seen.length ≥ 1 then [] else ["no-request"]) ++
+  -- every open attempt that did not fail on the client side reached the server, and no other
+  (if seen.length == 1 + srv script.tail (opens - 1) then [] else ["request-count"]) ++
   (match cancelAfter with
    | none => if delivered == all then [] else ["messages-lost-or-reordered"]
    | some n => if delivered == all.take n && n ≤ all.length then [] else ["messages-lost-or-reordered"]) ++
   (if cancelled && seen.length != seenAtCancel then ["retried-after-cancel"] else []) ++
   (if watch then
      (if segOk max 0 reopened then [] else ["over-budget"]) ++
-     -- the client gives up only after max+1 message-less re-opens
+     -- the client gives up only after max+1 re-open attempts in a row that failed or delivered nothing
      (if !cancelled && cnt 0 reopened != max + 1 then ["gave-up-early"] else [])
-   else if seen.length == 1 then [] else ["non-watch-retried"])
+   else if seen.length == 1 && opens == 1 then [] else ["non-watch-retried"])
 
 /-- clauses violated by an observed unary call: `attempts` reached the server; `prodMax` is the
 budget /repo's own client configures (the property demands that unary calls are never retried) -/
